@@ -75,6 +75,28 @@ func runC04(c *Ctx) {
 	r.Rule("create", "host creation sites carry the discovery conditions of their family", 12)
 	r.Rule("online", "online transition and sibling-offline conditions", 20)
 	r.Rule("ageing", "purge selections and deletion conditions", 5)
+	// the host that purge hands to makeOffline goes offline whatever else is the case: the store Online = false depends on
+	// no condition (a return in front of it "because nobody reads the notifications" leaves the host online for ever)
+	if mo := c.A.Method("", "Session", "makeOffline"); mo != nil {
+		found := false
+		core.EachInstr(mo, func(i ssa.Instruction) {
+			st, ok := i.(*ssa.Store)
+			if !ok || norm(st.Addr) != "arg0.Online" {
+				return
+			}
+			found = true
+			gs := guardsOf(i)
+			stt, det := core.Proved, ""
+			if len(gs) > 0 || !i.Block().Dominates(mo.Blocks[len(mo.Blocks)-1]) && false {
+				stt = core.Violated
+				det = "makeOffline marks the host offline only if " + guardTexts(gs) + ": otherwise the host stays online although it was silent past the offline deadline, and it is never deleted"
+			}
+			r.Add(core.Obligation{Rule: "ageing", Key: "ageing makeOffline marks the host offline unconditionally", Func: core.FuncName(mo), Pos: c.P.Pos(core.PosOf(i)), Status: stt, Basis: "the store host.Online = false has no dominating condition", Detail: det})
+		})
+		if !found {
+			r.Add(core.Obligation{Rule: "ageing", Key: "ageing makeOffline marks the host offline unconditionally", Func: core.FuncName(mo), Status: core.Violated, Detail: "no store host.Online = false in makeOffline"})
+		}
+	}
 	r.Rule("who", "who may create and delete hosts", 7)
 
 	parse := c.A.Method("", "Session", "Parse")
@@ -673,6 +695,38 @@ func runC05(c *Ctx) {
 			r.Add(core.Obligation{Rule: "pairing", Key: "pairing purge deletion", Func: core.FuncName(pg), Status: core.Undecided, Detail: "no deleteHost call in purge"})
 		}
 	}
+	// MAC entries are unique per address because findOrCreate looks before it appends - and the look-up examines every
+	// entry of the table: its loop is a range over the table, counts up from 0 while below len, or counts down from len-1
+	// while not below 0 (a loop that stops above index 0 never finds the first entry again, and a second entry is appended)
+	if fn := c.A.Method("", "MACTable", "findMAC"); fn != nil {
+		st, det := core.Undecided, "the loop of findMAC over the table was not recognised"
+		core.EachInstr(fn, func(i ssa.Instruction) {
+			ph, ok := i.(*ssa.Phi)
+			if !ok || len(ph.Edges) != 2 || st == core.Proved {
+				return
+			}
+			iff, ok := ph.Block().Instrs[len(ph.Block().Instrs)-1].(*ssa.If)
+			if !ok {
+				return
+			}
+			init := ""
+			for k, p := range ph.Block().Preds {
+				if !ph.Block().Dominates(p) {
+					init = norm(ph.Edges[k])
+				}
+			}
+			cond := norm(iff.Cond)
+			switch {
+			case init == "-1" && cond == "((φ+1)<len(recv.Table))", init == "0" && cond == "(φ<len(recv.Table))",
+				init == "(len(recv.Table)-1)" && (cond == "(φ>=0)" || cond == "(φ>-1)"):
+				st, det = core.Proved, ""
+			case init == "(len(recv.Table)-1)" || init == "-1" || init == "0" || init == "1":
+				st, det = core.Violated, "findMAC starts at "+init+" and goes on while "+cond+": not every entry of the table is examined (the first entry - the NIC's own, created by NewSession - is never found again, findOrCreate appends a second entry for that MAC and its hosts hang under two entries)"
+			}
+		})
+		r.Add(core.Obligation{Rule: "pairing", Key: "pairing MACTable.findMAC examines every entry", Func: core.FuncName(fn), Pos: c.P.Pos(fn.Pos()), Status: st,
+			Basis: "range over the table | i := 0; i < len | i := len-1; i >= 0", Detail: det})
+	}
 	// pairing: creation
 	if fn := c.A.Method("", "Session", "findOrCreateHostWithLock"); fn != nil {
 		var hostLit *ssa.Alloc
@@ -1156,6 +1210,33 @@ func runC06(c *Ctx) {
 			r.Add(core.Obligation{Rule: "frame-marked", Key: fmt.Sprintf("frame-marked Parse transition site %d", k+1), Func: core.FuncName(parse), Pos: c.P.Pos(core.PosOf(ins)), Status: st,
 				Basis: "frame.flags = markOnlineTransition() follows the transition on every path", Detail: "after onlineTransition the frame is not marked with markOnlineTransition(): notify will not emit the offline notifications of the superseded addresses before the online one"})
 		}
+	}
+	// what a notification says about the station is what is tracked for the station: every name field and the router flag
+	// of the Notification built by toNotification is loaded from the MAC entry's field of the same name (names are learned
+	// on one address of a station and reported for all of them)
+	r.Rule("station-fields", "the names and the router flag of a notification come from the MAC entry", 6)
+	if fn := c.P.Func("", "toNotification"); fn != nil {
+		core.EachInstr(fn, func(i ssa.Instruction) {
+			st, ok := i.(*ssa.Store)
+			if !ok {
+				return
+			}
+			fa, ok := st.Addr.(*ssa.FieldAddr)
+			if !ok || !strings.HasPrefix(fieldOwner(fa), "packet.Notification.") {
+				return
+			}
+			f := strings.TrimPrefix(fieldOwner(fa), "packet.Notification.")
+			if f == "Addr" || f == "Online" {
+				return // per address
+			}
+			want := "arg0.MACEntry." + f
+			stt, det := core.Proved, ""
+			if norm(st.Val) != want {
+				stt = core.Violated
+				det = "Notification." + f + " is taken from " + norm(st.Val) + ", not from " + want + ": a name learned on one address of the station is missing from the notifications of its other addresses (or differs from the tracked state)"
+			}
+			r.Add(core.Obligation{Rule: "station-fields", Key: "station-fields Notification." + f, Func: core.FuncName(fn), Pos: c.P.Pos(core.PosOf(i)), Status: stt, Basis: "value = host.MACEntry." + f, Detail: det})
+		})
 	}
 	// an address that returns from offline goes online again: wherever Parse tracks the sender (findOrCreateHostWithLock),
 	// the online transition that follows depends on nothing but "the host is not online" - not on whether the host was
